@@ -404,7 +404,22 @@ func ruleN15r(c *Ctx) {
 			} else if u, ok := needle.(*ssa.UnOp); ok && u.Op == token.MUL {
 				// element of a literal list of register names
 				if ia, ok := u.X.(*ssa.IndexAddr); ok {
-					if sl, ok := ia.X.(*ssa.Slice); ok {
+					src := ia.X
+					// a package-level list: the literal stored into the variable by the package initialiser
+					if ld, ok := src.(*ssa.UnOp); ok && ld.Op == token.MUL {
+						if gl, ok := ld.X.(*ssa.Global); ok && gl.Pkg != nil {
+							if init := gl.Pkg.Func("init"); init != nil {
+								for _, ib := range init.Blocks {
+									for _, iin := range ib.Instrs {
+										if st, ok := iin.(*ssa.Store); ok && st.Addr == ssa.Value(gl) {
+											src = st.Val
+										}
+									}
+								}
+							}
+						}
+					}
+					if sl, ok := src.(*ssa.Slice); ok {
 						if al, ok := sl.X.(*ssa.Alloc); ok {
 							regs, total := 0, 0
 							for _, r := range *al.Referrers() {
